@@ -4,6 +4,7 @@ use cglue::boxed::{CBox, CSliceBox};
 use cglue::forward::Fwd;
 use cglue::trait_group::{c_void, CGlueObjContainer, GetContainer, NoContext, Opaquable};
 use core::mem::{align_of, size_of};
+use cglue_macro::check;
 
 const W: usize = core::mem::size_of::<usize>();
 fn words<T>(t: &T) -> [usize; 12] {
@@ -44,6 +45,28 @@ fn p_vtbl_decl_order() {
     let c = obj.ccont_ref();
     let vt = obj.get_vtbl();
     assert!(unsafe { (vt.z2())(c) } == 41 && unsafe { (vt.a1())(c) } == 42 && unsafe { (vt.a0())(c) } == 45, "C04 each slot dispatches to the method of its name");
+    kani::cover!(true, "end");
+}
+
+#[kani::proof]
+#[kani::unwind(14)]
+fn p_vtbl_only_slot() {
+    type C = CGlueObjContainer<CBox<'static, Imp>, NoContext, TvoRetTmp<NoContext>>;
+    assert!(size_of::<TvoVtbl<C>>() == 3 * W, "C04 a C-side-only method is still one slot of the vtable");
+    let v = <&TvoVtbl<C>>::default();
+    let w = words(v);
+    assert!(w[0] == v.vo_first() as usize && w[1] == v.vo_second() as usize && w[2] == v.vo_third() as usize, "C04 vtable slots follow declaration order, including #[vtbl_only] methods");
+    let obj = trait_obj!(Imp { v: 100 } as Tvo);
+    let c = obj.ccont_ref();
+    let vt = obj.get_vtbl();
+    let wv = words(vt);
+    let mut f = vt.vo_first();
+    f = unsafe { core::mem::transmute(wv[0]) };
+    assert!(unsafe { f(c) } == 100 ^ 11, "C04 slot 0 reaches the first declared method");
+    f = unsafe { core::mem::transmute(wv[1]) };
+    assert!(unsafe { f(c) } == 100 ^ 12, "C04 slot 1 reaches the second declared method (the #[vtbl_only] one)");
+    f = unsafe { core::mem::transmute(wv[2]) };
+    assert!(unsafe { f(c) } == 100 ^ 13, "C04 slot 2 reaches the third declared method");
     kani::cover!(true, "end");
 }
 
@@ -101,6 +124,23 @@ fn p_grp_partial() {
     let w = grp_words(&gn);
     assert!(w[2] == 0 && w[3] == 0, "C04 no optional trait enabled: both optional slots null");
     assert!(w[0] != 0 && w[1] != 0);
+    kani::cover!(true, "end");
+}
+#[kani::proof]
+#[kani::unwind(14)]
+fn p_grp_alias_order() {
+    type GA<I> = GAliasContainer<CBox<'static, I>, NoContext>;
+    let x: u64 = kani::any();
+    let g: GAliasBaseBox<Imp> = From::from(CBox::from(Imp { v: x }));
+    let w = words(&g);
+    assert!(w[0] == <&TzedVtbl<GA<Imp>>>::default() as *const _ as usize, "C04 mandatory slot 0 is the trait whose ALIAS sorts first (Mzed = Tzed)");
+    assert!(w[1] == <&TabcVtbl<GA<Imp>>>::default() as *const _ as usize, "C04 mandatory slot 1 is the trait whose ALIAS sorts second (Nabc = Tabc)");
+    assert!(w[2] == <&TyopVtbl<GA<Imp>>>::default() as *const _ as usize, "C04 optional slot 0 is the trait whose ALIAS sorts first (Abop = Tyop)");
+    assert!(w[3] == <&TbopVtbl<GA<Imp>>>::default() as *const _ as usize, "C04 optional slot 1 is the trait whose ALIAS sorts second (Zyop = Tbop)");
+    let gy: GAliasBaseBox<ImpY> = From::from(CBox::from(ImpY { v: x }));
+    let w = words(&gy);
+    assert!(w[2] == <&TyopVtbl<GA<ImpY>>>::default() as *const _ as usize && w[3] == 0, "C04 with only Abop enabled: slot of Abop filled, slot of Zyop null");
+    assert!(check!(gy impl Abop) && !check!(gy impl Zyop));
     kani::cover!(true, "end");
 }
 #[kani::proof]
